@@ -79,6 +79,10 @@ func main() {
 		_ = os.MkdirAll(*out, 0o755)
 		for k := 0; k < *reps; k++ {
 			opt := supv.Options{Seed: int64(*seed)*1000 + int64(k), Procs: 2 + k%3}
+			if !*fake && k == *reps-1 {
+				// the last trace: a burst of 24 short-lived processes while nobody reads the events channel
+				opt.Procs, opt.Burst, opt.PauseReaderMs = 24, true, 400
+			}
 			if *fake {
 				opt.Fake = func(r *rec.Recorder) supvmodel.ProcessSupervisor { return stack.NewFakeSupWithRules(r) }
 			}
